@@ -16,7 +16,7 @@ func (Scenario) Generate(rng *rand.Rand, focus, tier string) kernel.Plan {
 		"vest_pool": rng.Int63n(64),
 	}
 	w := map[string]int{"regcoin": 8, "addcoin": 6, "regerc20": 6, "toggle": 4, "upderc20": 3, "param": 4, "convcoin": 16, "converc": 14,
-		"suicide": 1, "block": 24, "advance": 10, "crash": 2, "export": 1, "stake": 0, "regcoin2": 2, "liemode": 1, "votemode": 1, "evidence": 0}
+		"suicide": 1, "block": 24, "advance": 10, "crash": 2, "export": 1, "stake": 0, "regcoin2": 2, "liemode": 1, "votemode": 1, "evidence": 0, "squat": 1}
 	switch focus {
 	case "C11":
 		w["liemode"], w["convcoin"], w["converc"] = 4, 20, 18
@@ -25,7 +25,7 @@ func (Scenario) Generate(rng *rand.Rand, focus, tier string) kernel.Plan {
 	case "C20":
 		w["param"], w["block"], w["evidence"] = 14, 34, 1
 	case "C15":
-		w["param"], w["block"], w["regcoin2"], w["addcoin"] = 12, 34, 8, 8
+		w["param"], w["block"], w["regcoin2"], w["addcoin"], w["squat"] = 12, 34, 8, 8, 4
 	case "C17":
 		w["stake"], w["votemode"], w["param"], w["advance"], w["evidence"] = 30, 5, 8, 14, 3
 	case "C13":
@@ -33,7 +33,7 @@ func (Scenario) Generate(rng *rand.Rand, focus, tier string) kernel.Plan {
 	case "C14":
 		w["evidence"] = 1
 	}
-	order := []string{"regcoin", "addcoin", "regerc20", "toggle", "upderc20", "param", "convcoin", "converc", "suicide", "block", "advance", "crash", "export", "stake", "regcoin2", "liemode", "votemode", "evidence"}
+	order := []string{"regcoin", "addcoin", "regerc20", "toggle", "upderc20", "param", "convcoin", "converc", "suicide", "block", "advance", "crash", "export", "stake", "regcoin2", "liemode", "votemode", "evidence", "squat"}
 	total := 0
 	for _, k := range order {
 		total += w[k]
@@ -96,6 +96,8 @@ func (Scenario) Generate(rng *rand.Rand, focus, tier string) kernel.Plan {
 			add("upderc20", rng.Int63n(6), rng.Int63n(4))
 		case "param":
 			add("param", rng.Int63n(5), rng.Int63n(16), rng.Int63n(2))
+		case "squat":
+			add("squat", rng.Int63n(4), rng.Int63n(16))
 		case "convcoin":
 			add("convcoin", rng.Int63n(3), rng.Int63n(7), rng.Int63n(8), rng.Int63n(8))
 		case "converc":
